@@ -6,6 +6,7 @@ mod checks;
 mod disk;
 mod model;
 mod msg;
+mod node;
 mod ops;
 mod rng;
 mod runner;
